@@ -173,9 +173,9 @@ func (it *Interp) Step(t []string, op string) string {
 			return "bad-op"
 		}
 		n := stat.InboundNode()
-		return fmt.Sprintf("[p=%d b=%d c=%d conc=%d avgrt=%d minrt=%d qps=%s maxavg=%s]",
+		return fmt.Sprintf("[p=%d b=%d c=%d conc=%d avgrt=%s minrt=%s qps=%s maxavg=%s]",
 			n.GetSum(base.MetricEventPass), n.GetSum(base.MetricEventBlock), n.GetSum(base.MetricEventComplete),
-			n.CurrentConcurrency(), int64(n.AvgRT()), int64(n.MinRT()),
+			n.CurrentConcurrency(), vh.FBits(n.AvgRT()), vh.FBits(n.MinRT()),
 			vh.FBits(n.GetQPS(base.MetricEventPass)), vh.FBits(n.GetMaxAvg(base.MetricEventComplete)))
 	}
 	return "bad-op"
